@@ -412,9 +412,8 @@ func main() {
 		}
 		runCase(i, args, r, c, v, root)
 	}
-	if v.Counters["accepted"] == 0 || v.Counters["rejected"] == 0 || v.Counters["steps"] == 0 {
-		v.Inconclude("batch saw no accepted or no rejected configuration, or executed no processor")
-	}
+	// (accepted / rejected / steps are required over the whole run by the driver: the exhaustive
+	// index ranges of single batches can be all-rejected)
 	os.Exit(v.Write())
 }
 
